@@ -1029,6 +1029,19 @@ func (x *Exec) assertPoints(fr *Frame) *assertMap {
 // resolveAt finds the value of a source variable at the program point (b, idx): the nearest
 // reference (DebugRef) or phi of that variable walking up the dominator tree.
 func (x *Exec) resolveAt(fr *Frame, st *State, lr LocalRef, b *ssa.BasicBlock, idx int) Val {
+	// a variable kept in a stack cell (struct locals whose fields are read or assigned): its
+	// current contents, not the value some dominating definition gave it
+	for _, a := range fr.fn.Locals {
+		if a.Comment == lr.Name && a.Pos() == lr.Pos {
+			if _, ok := st.cells[cellKey{fr.id, a}]; ok {
+				sf := &Frame{spec: true, fn: fr.fn, lpkg: fr.lpkg, id: fr.id}
+				if pt, ok := a.Type().(*types.Pointer); ok && (types.Identical(pt.Elem(), lr.Type) || typeKey(pt.Elem()) == typeKey(lr.Type)) {
+					v := x.load(sf, st, x.val(fr, a), nil)
+					return v
+				}
+			}
+		}
+	}
 	for blk := b; blk != nil; blk = blk.Idom() {
 		hi := len(blk.Instrs) - 1
 		if blk == b {
@@ -1079,9 +1092,27 @@ func (x *Exec) checkAssert(fr *Frame, st *State, au *AssertUnit, b *ssa.BasicBlo
 			args = append(args, fr.oldVals[sp.Index])
 		case "local":
 			args = append(args, x.resolveAt(fr, st, sp.Local, b, idx))
+		case "snap":
+			if v, ok := x.snaps[sp.Name]; ok {
+				args = append(args, v)
+			} else {
+				// the snapshot point was not passed on this path: its value is unknown
+				t := au.Fn.Params[len(args)].Type()
+				v := x.freshVal(t, "snap_"+sp.Name)
+				x.assumeWF(st, t, v.L)
+				args = append(args, v)
+			}
 		}
 	}
 	res, facts := x.runSpecF(au.Fn, st, x.entry, args)
+	if au.C.Snap != "" {
+		if x.snaps == nil {
+			x.snaps = map[string]Val{}
+		}
+		x.assume(st, facts)
+		x.snaps[au.C.Snap] = res
+		return
+	}
 	sub := st.clone()
 	x.assume(sub, facts)
 	lbl := fmt.Sprintf("%s %q.%d", au.C.When, au.C.Anchor, au.Index)
